@@ -31,7 +31,7 @@ Count(seq, Test(_)) == Len(SelectSeq(seq, Test))
 SatAdd(n, k) == IF n + k >= 2 THEN 2 ELSE n + k
 
 (* a new task record from the dump, the step's probes and the previous record *)
-LoadTask(pid, r, x, old, isNew) ==
+LoadTask(pid, r, x, old, isNew, oldts) ==
   LET k == x.k
       cre == Count(r.gens, LAMBDA g : g.what = "message" /\ g.pid = pid /\ g.t = k /\ g.state = "created")
       trm == Count(r.gens, LAMBDA g : g.what = "message" /\ g.pid = pid /\ g.t = k /\ IsDone(g.state))
@@ -46,6 +46,11 @@ LoadTask(pid, r, x, old, isNew) ==
                                    /\ \A j \in 1..(i - 1) : ~(cs[j] = NIL \/ cs[j] = code) }
   IN [st |-> x.st, prev |-> x.prev, seq |-> x.seq, err |-> x.err, emitOff |-> x.emitOff,
       catchDone |-> x.catchDone, hooked |-> FALSE,
+      start |-> x.start, tdone |-> { x.tdone[i] : i \in DOMAIN x.tdone },
+      born |-> IF isNew THEN r.post.now ELSE old.born,
+      \* was the predecessor open just before the step that created this task
+      popen |-> IF ~isNew THEN old.popen
+                ELSE IF x.prev \in DOMAIN oldts THEN ~IsDone(oldts[x.prev].st) ELSE TRUE,
       mcre |-> SatAdd(IF isNew THEN 0 ELSE old.mcre, cre),
       mterm |-> SatAdd(IF isNew THEN 0 ELSE old.mterm, trm),
       okterm |-> SatAdd(IF isNew THEN 0 ELSE old.okterm, IF okact THEN 1 ELSE 0),
@@ -80,7 +85,7 @@ LoadProc(pid, r, oldp) ==
        IN [oldp EXCEPT
              !.ts = [k \in keys |-> LoadTask(pid, r, rec(k),
                                              IF k \in DOMAIN oldts THEN oldts[k] ELSE NewTask(NoKey, 0),
-                                             k \notin DOMAIN oldts)],
+                                             k \notin DOMAIN oldts, oldts)],
              !.ps = lp.ps, !.perr = lp.perr,
              !.nseq = Len(lp.tasks) + 1,
              !.ev = [start |-> SatAdd(@.start, starts), term |-> SatAdd(@.term, comps + errs),
@@ -99,6 +104,7 @@ FreshProc(mi, inp) ==
 KeyOrNo(r) == IF "t" \in DOMAIN r THEN r.t ELSE NoKey
 
 Label(r) ==
+  IF r.a = "Advance" THEN [StepLabel("Advance", NIL, <<NIL, 0>>) EXCEPT !.opt = [d |-> r.d]] ELSE
   [a |-> r.a, pid |-> r.pid, t |-> KeyOrNo(r),
    kind |-> IF r.a = "Act" THEN r.kind ELSE NIL,
    st |-> IF r.a = "Act" /\ procs[r.pid].st # "absent" /\ r.t \in DOMAIN procs[r.pid].ts
@@ -120,6 +126,7 @@ ObsModel ==
   /\ queue' = {} /\ spawn' = {}
   /\ budget' = MaxActions
   /\ lastOut' = <<>> /\ lastRes' = "-" /\ lastAct' = NoAct
+  /\ now' = 0
 
 ObsSkip ==
   /\ l <= Len(Log) /\ Log[l].ev \in {"end", "note"}
@@ -138,13 +145,16 @@ ObsStep ==
                          : pid \in { q \in DOMAIN r.post.procs : r.post.procs[q].cached } }
      /\ spawn' = { [kind |-> r.post.jobs[i].kind, pid |-> r.post.jobs[i].pid] : i \in DOMAIN r.post.jobs }
      /\ budget' = budget
+     /\ now' = r.post.now
      /\ lastOut' = [i \in DOMAIN r.gens |->
                       [what |-> r.gens[i].what, pid |-> r.gens[i].pid, t |-> r.gens[i].t,
                        nid |-> r.gens[i].nid, type |-> r.gens[i].type, state |-> r.gens[i].state]]
      /\ lastRes' = IF r.a = "Act" THEN (IF r.res = "ok" THEN "ok" ELSE "err") ELSE "-"
      /\ lastAct' = Label(r)
-     /\ LET noop == IF C05_RejectedIsNoopStep THEN {}
-                    ELSE { V("C05_RejectedIsNoop", r.pid, KeyOrNo(r), {}) }
+     /\ LET noop == (IF C05_RejectedIsNoopStep THEN {}
+                     ELSE { V("C05_RejectedIsNoop", r.pid, KeyOrNo(r), {}) })
+                    \cup (IF C19_TickKeepsStatesStep THEN {}
+                          ELSE { V("C19_TickKeepsStates", "p1", NoKey, {}) })
             \* a re-executed prefix (explore) was judged when it was first recorded
             new == IF r.pre THEN {} ELSE (AllV' \cup noop) \ seen
         IN /\ Report(new, r)
